@@ -301,7 +301,9 @@ int32_t jls_twr_close(struct jls_twr_s * self) {
     if (self) {
         JLS_LOGI("jls_twr_close start");
         struct msg_header_s hdr = { .msg_type = MSG_CLOSE };
-        msg_send(self, &hdr, NULL, 0);
+        while (msg_send(self, &hdr, NULL, 0)) {
+            ;  // queue still full: the writer thread drains it.  CLOSE must be queued or the join below never returns
+        }
         jls_bkt_finalize(self->bk);
         JLS_LOGI("jls_bkt_finalize done");
         // jls_wr_flush(self->wr);  // takes too long & blocks UI
